@@ -57,9 +57,10 @@ func (m *MsgSpec) line() string {
 		if f.Oneof >= 0 {
 			o = fmt.Sprint(f.Oneof)
 		}
-		p := 1
-		if f.Repeated {
-			p = 0
+		// FieldDescriptor.HasPresence: oneof members, and proto2 optional scalars
+		p := 0
+		if f.Oneof >= 0 || (!m.Proto3 && !f.Repeated) {
+			p = 1
 		}
 		fmt.Fprintf(&b, " F %s %d %s %d", f.Name, f.Num, o, p)
 	}
